@@ -270,6 +270,14 @@ def check_c19(run):
     fams = [f for f in c01_families(run) if f.name in ("host", "ipv4deep", "brackets")]
     for f in fams:
         f.invariants += ["GettersInv"]
+    # address VALUES of every kind (the host-kind accessors must not depend on which address it is): IPv4-mapped / -compatible / NAT64 / link-local /
+    # multicast / documentation IPv6 prefixes and loopback / broadcast / unspecified / multicast / link-local IPv4 ranges, completed over a small alphabet
+    q = run.tier == "quick"
+    fams.append(Family("v6kinds", "1.:f0", 3 if q else 4, frames=[("http://[::ffff:", "]/"), ("http://[::", "]/"), ("ws://[64:ff9b::", "]/"), ("x://[::ffff:", "]"),
+                                                              ("http://[fe80::", "]:8/"), ("file://[ff02::", "]/p"), ("http://[2001:db8::", "]"), ("http://[::ffff:0:", "]"),
+                                                              ("http://[0:0:0:0:0:ffff:", "]/")], invariants=["PtrOk", "GettersInv"]))
+    fams.append(Family("v4kinds", "0259.", 3, frames=[("http://", ".0.0.1/"), ("http://127.", "/"), ("http://", "/"), ("http://255.255.255.", "/"), ("x://0.0.0.", "/"),
+                                                      ("ws://224.0.0.", ""), ("http://169.254.", ".1:8"), ("file://10.", "/p")], invariants=["PtrOk", "GettersInv"]))
     run_parse_families(run, fams, keys="derived,hostname,port,href")
     # the same accessors under a parser with another special-scheme table ("the URL is special" is relative to its parser)
     gstarts = ["gopher://0x7f.1/", "gopher://h:70/x", "http://1.2.3.4:70/", "gopher://[::1]:7/", "x://1.2.3.4/", "file://1.2.3.4/p"]
@@ -850,13 +858,16 @@ def opt_families(run):
     L = filler_letter(run.seed)
     inv = ["PtrOk", "TriggersSufficient"]
     fams = [
-        Family("optmix", "/\\.%2|'\"`~ #?@:" + L, 2 if q else 3,
+        Family("optmix", "/\\.%2|'\"`~ #?@:" + L, 2,     # (sizes fitted to ~2000 validated events/s x 22 configurations per input: thorough ~1.5 M events)
                prefixes=["http://h/", "x://h/", "gopher://h:70/", "file:///", "x:", "http://h/?", "x://h/#", "gopher://", "http://h/#", "", "gopher:", "http://u:p@h:8", "ws://"][:13 if not q else 8],
                bases=["http://u:p@b:81//p/./q?r#s"] if q else ["http://u:p@b:81//p/./q?r#s", "gopher://g/x"], invariants=inv),
-        Family("optpath", "/\\.%C|2e" + L, 3 if q else 4, prefixes=["http://h/", "file:", "file:///"], suffixes=["", "?a'b#c`d"] if not q else [""], invariants=inv),
-        Family("optquery", "&=a+'\"|~%b", 2 if q else 4, prefixes=["http://h/?", "x://h/?", "http://h/?b=2&a=1&"], suffixes=["", "#f|~\""], invariants=inv),
+        Family("optpath", "/\\.%C|2e" + L, 3 if q else 4, prefixes=["http://h/", "file:", "file:///"], suffixes=[""], invariants=inv),
+        Family("optpathq", "/.%C|2" + L, 2, prefixes=["http://h/", "file:///"], suffixes=["?a'b#c`d"], invariants=inv),
+        Family("optquery", "&=a+'\"|~%b", 2 if q else 3, prefixes=["http://h/?", "x://h/?", "http://h/?b=2&a=1&"], suffixes=["", "#f|~\""], invariants=inv),
         Family("optraw", [0x110080, 0x1100FF, ord(L), ord("/"), ord("%"), ord(".")], 3 if q else 4, prefixes=["http://h/", "http://", "x:"], invariants=["PtrOk"]),
         Family("optnoscheme", L + "./:@?#", 3 if q else 4, prefixes=["", "h", "//"], invariants=inv),
+        # references against bases with an opaque path (a relative reference fails there for a reason other than a missing scheme of the input)
+        Family("optopaquebase", L + "./:?#", 2 if q else 3, bases=["m:o?q#f", "x:80", "localhost:8080"], nobase=False, invariants=["PtrOk"]),
         # long queries with duplicate names (sort stability only shows beyond a dozen pairs)
         Family("optlongquery", "&" + L, 1, frames=[("http://h/p?" + "&".join("%s=%d" % ("cba"[(i * 7 + i // 3) % 3], i) for i in range(n_)), "#f") for n_ in (13, 16, 23, 30)], invariants=["PtrOk"]),
         # every credential shape (username-only, password-only, empty, with ':' inside) and every port shape
@@ -870,7 +881,7 @@ def check_c16(run):
     run.selftest()
     for fam in opt_families(run):
         mod = fam.write(run.scratch)
-        bad, n = run.tlc_events(mod, fam.name, "opt", cfg=mod + ".cfg", chunks=14, events_args=["--setter-events"] if fam.name in (("optmix", "optraw") if run.tier == "quick" else ("optmix", "optpath", "optraw")) else [])
+        bad, n = run.tlc_events(mod, fam.name, "opt", cfg=mod + ".cfg", chunks=14, events_args=["--setter-events"] if fam.name in ("optmix", "optraw") else [], timeout=1800)
         run.samples.append("[%s/opt] %d composite events (input x option configuration) recorded from the real code" % (fam.name, n))
         absorb_events(run, bad, fam.name)
         run.distinct += n
@@ -953,6 +964,11 @@ def check_c17(run):
                         prefixes=["http://h/", "http://h/?", "http://h/#"], invariants=["PtrOk"]), None))
     for f, profs in plan:
         f.bases, f.nobase = [], True
+    # the profile's ParseRef: references against bases with an opaque path, without a scheme (the BASE gets the default scheme), with a host-less
+    # scheme-relative form, special / file bases and the empty base
+    plan.append((Family("idemref", L + "/?#.:", 2 if q else 3, bases=["x:80", "m:o?q#f", "b/c?d", "localhost:8080", "http://u:p@h:8/a/b?q#f", "file:///C:/d", "//h", "", "%2562/./c"],
+                        nobase=False, invariants=["PtrOk"]), None))
+    for f, profs in plan:
         mod = f.write(run.scratch)
         if profs is None:
             profs = ALL_STRING_PROFILES
